@@ -24,6 +24,17 @@ def fnum(x):
     return repr(float(x))
 
 
+# an angle is a float (rendered as one float literal, so it must be binary32-exact) or a tuple
+# ('sum', a, b): rendered as the expression `a f + b f`, evaluated by the interpreter in double
+SUM_ANGLES = [('sum', 1048576.0, 0.0625), ('sum', 16777216.0, 1.0), ('sum', 0.5, 0.25), ('sum', 4194304.0, 0.375), ('sum', -2097152.0, 0.03125)]
+
+def aval(t):
+    return t[1] + t[2] if isinstance(t, tuple) else float(t)
+
+def alit(t):
+    return "%sf + %sf" % (fnum(t[1]), fnum(t[2])) if isinstance(t, tuple) else "%sf" % fnum(t)
+
+
 class Prog:
     def __init__(self, ops, draws):
         ops = list(ops)
@@ -50,7 +61,7 @@ class Prog:
             elif o[0] == 'G':
                 toks += ['G', o[1], str(o[2]), str(o[3])]
                 if o[1] in ('RX', 'RY', 'RZ'):
-                    toks.append(fnum(o[4]))
+                    toks.append(fnum(aval(o[4])))
             elif o[0] == 'CX':
                 toks += ['CX'] + [str(x) for x in o[1:5]]
             elif o[0] == 'M':
@@ -73,13 +84,14 @@ class Prog:
             return "r%d[%d]" % (h, el)
         return "o%d.f%d" % (h, el)
 
-    def render(self, rng, styles=("direct", "func", "arrparam", "method")):
+    def render(self, rng, styles=("direct", "func", "arrparam", "method"), control=False):
         """Returns (source, line_of_op) where line_of_op[i] is the 1-based line of op i in main."""
         helpers = {}
         classes = {}
         body = []
         lines_of = []
         nbit = [0]
+        lv = [0]
 
         def helper(name, text):
             helpers[name] = text
@@ -107,7 +119,7 @@ class Prog:
             if o[0] == 'G':
                 g, h, el = o[1], o[2], o[3]
                 gl = g.lower()
-                ang = ", %sf" % fnum(o[4]) if g in ('RX', 'RY', 'RZ') else ""
+                ang = ", %s" % alit(o[4]) if g in ('RX', 'RY', 'RZ') else ""
                 kind, k = self.kinds[h]
                 avail = [s for s in styles if s in ("direct", "func") or (s == "arrparam" and kind == 'arr') or (s == "method" and kind == 'obj')]
                 st = rng.choice(avail)
@@ -130,7 +142,7 @@ class Prog:
                     mname = "m_%s%d" % (gl, el)
                     if ang:
                         c["methods"][mname] = "public function %s(float t) -> void { %s(this.f%d, t); }" % (mname, gl, el)
-                        stmt = "o%d.%s(%sf);" % (h, mname, fnum(o[4]))
+                        stmt = "o%d.%s(%s);" % (h, mname, alit(o[4]))
                     else:
                         c["methods"][mname] = "public function %s() -> void { %s(this.f%d); }" % (mname, gl, el)
                         stmt = "o%d.%s();" % (h, mname)
@@ -163,6 +175,13 @@ class Prog:
                     stmt = "g_r(%s);" % self.ref(h, el)
             elif o[0] == 'K':
                 stmt = "destroy o%d;" % o[1]
+            if control and o[0] in ('G', 'CX') and rng.random() < 0.3:
+                if nbit[0] > 0 and rng.random() < 0.5:
+                    b = rng.randint(1, nbit[0])
+                    stmt = "if (b%d == 1b) { %s } else { %s }" % (b, stmt, stmt)
+                else:
+                    lv[0] += 1
+                    stmt = "for (int i%d = 0; i%d < 1; i%d = i%d + 1) { %s }" % (lv[0], lv[0], lv[0], lv[0], stmt)
             lines_of.append((o[0], None))
             body.append(stmt)
         src = []
@@ -259,7 +278,7 @@ def gen_prog(rng, max_q=5, n_ops=12, kinds=("var", "arr", "obj"), allow_measure=
         else:
             h, e = rng.choice(usable)
             g = rng.choice(gates)
-            ops.append(('G', g, h, e, rng.choice(ANGLES)))
+            ops.append(('G', g, h, e, rng.choice(ANGLES) if rng.random() < 0.85 else rng.choice(SUM_ANGLES)))
     # reuse consumes draws at declaration time too (reset on reuse); give spare draws
     draws += [rng.choice([0.1, 0.6, 0.9]) for _ in range(6)]
     return ops, draws
@@ -322,7 +341,7 @@ def parse_model_line(line):
     return d
 
 
-def run_progs(progs, rng, tag, styles=("direct", "func", "arrparam", "method"), timeout=1800):
+def run_progs(progs, rng, tag, styles=("direct", "func", "arrparam", "method"), timeout=1800, control=False):
     """progs: list of Prog.  Returns list of dict(prog, src, oplines, model, impl)."""
     exe_m = vlib.ocaml_engine("sim")
     vlib.repo_build("hooked")
@@ -333,7 +352,7 @@ def run_progs(progs, rng, tag, styles=("direct", "func", "arrparam", "method"), 
     try:
         with open(os.path.join(tmp, "model.txt"), "w") as fm, open(os.path.join(tmp, "cases.txt"), "w") as fc:
             for i, p in enumerate(progs):
-                src, oplines = p.render(rng, styles)
+                src, oplines = p.render(rng, styles, control)
                 path = os.path.join(tmp, "p%05d.bloch" % i)
                 open(path, "w").write(src)
                 fm.write(p.model_line() + "\n")
@@ -434,10 +453,10 @@ def compare(rec):
 
 # ---------------------------------------------------------------- reporting helper
 
-def check_progs(chk, progs, tag, rng, aspects=None, styles=("direct", "func", "arrparam", "method"), extra=None):
+def check_progs(chk, progs, tag, rng, aspects=None, styles=("direct", "func", "arrparam", "method"), extra=None, control=False):
     """Run programs on model and implementation; report disagreements (restricted to `aspects` when given).
     extra(rec) -> list of (aspect, detail) statement-level findings computed from the implementation alone."""
-    res = run_progs(progs, rng, tag, styles)
+    res = run_progs(progs, rng, tag, styles, control=control)
     n_dis = 0
     for r in res:
         d = compare(r)
